@@ -586,8 +586,8 @@ pub fn run(tier: &str) -> i32 {
     }
 
     // seeded runs: in-process batches and a fresh-process batch
-    let n_plain: usize = if quick { 1500 } else { 60_000 };
-    let n_fresh: usize = if quick { 250 } else { 6_000 };
+    let n_plain: usize = if quick { 1500 } else { 150_000 };
+    let n_fresh: usize = if quick { 250 } else { 12_000 };
     let thorough = !quick;
     let mut traces: std::collections::BTreeSet<u64> = Default::default();
     for (batch, n, fresh) in [("inproc", n_plain, false), ("fresh", n_fresh, true)] {
@@ -657,7 +657,7 @@ pub fn run(tier: &str) -> i32 {
     // Miri tier: thorough always; quick only when the inventory is non-empty
     // quick: a few seeds always (safety net for shared state the source inventory
     // cannot see), more when the inventory is non-empty; thorough: 64
-    let miri_seeds: u64 = if quick { if inv.is_empty() { 4 } else { 16 } } else { 64 };
+    let miri_seeds: u64 = if quick { if inv.is_empty() { 4 } else { 16 } } else { 256 };
     if miri_seeds > 0 {
         match miri_tier(vs, miri_seeds) {
             Ok((n, None)) => {
